@@ -48,6 +48,28 @@ class OpGen:
                 continue
         return None
 
+    def some_nodes(self):
+        """A list of two to four inline nodes as a caller of insert / replace_with may pass it: mostly runs of
+        text nodes, adjacent ones often with the same markup (the library joins them when it builds the fragment)."""
+        r = self.rng
+        marks = [None]
+        if self.schema.marks:
+            m = self.sg.mark()
+            if m is not None:
+                marks.append([m])
+        out = []
+        cur = r.choice(marks)
+        for _ in range(r.choice([2, 3, 3, 4])):
+            if r.random() < 0.25:
+                cur = r.choice(marks)
+            if r.random() < 0.12:
+                nd = self.some_node(inline=True)
+                if nd is not None:
+                    out.append(nd)
+                    continue
+            out.append(self.schema.text(r.choice(["q", "he", "\U0001F600", " b", "x"]), cur))
+        return out
+
     def pick(self, tr, ops=None):
         """Returns (name, args description (JSON-able), thunk)."""
         from prosemirror.model import Slice
@@ -63,6 +85,12 @@ class OpGen:
         sl = r.choice(self.slices) if self.slices else Slice.empty
         if name == "replace":
             return name, {"from": f, "to": t, "slice": proj.proj_slice(sl)}, lambda: tr.replace(f, t, sl)
+        if name in ("replace_with", "insert") and r.random() < 0.3:
+            nodes = self.some_nodes()
+            desc = [proj.proj_node(x) for x in nodes]
+            if name == "insert":
+                return name, {"pos": f, "nodes": desc}, lambda: tr.insert(f, nodes)
+            return name, {"from": f, "to": t, "nodes": desc}, lambda: tr.replace_with(f, t, nodes)
         if name == "replace_with":
             node = self.some_node()
             if node is None:
